@@ -129,7 +129,8 @@ def random_shape(rng, small=True):
         n_out = min(n_out, 2)           # range signatures are 6 KiB each
     tagged = [rng.random() < 0.5 for _ in range(n_out)]
     n_proofs = rng.choice([0, 1, 1, 2, 3])
-    lr = (rng.choice([0, 1, 6, 7]), rng.choice([0, 1, 6, 7]))
+    lr = (rng.choice([0, 1, 6, 7, 10, 11, 16, 65]), rng.choice([0, 1, 6, 7, 10, 11, 16, 65])) if rng.random() < 0.25 else \
+        (rng.choice([0, 1, 6, 7]), rng.choice([0, 1, 6, 7]))
     sh = dict(version=version, in_kinds=kinds, ring=ring, out_tagged=tagged, rct_type=t, n_proofs=n_proofs, lr=lr)
     if n_in >= 2 and rng.random() < 0.3:
         # inputs with different ring sizes (never an empty first ring: see shape_is_wf)
